@@ -9,7 +9,7 @@
 From Coq Require Import List NArith ZArith Bool Sorted Permutation.
 Import ListNotations.
 From SV Require Fmt.CmdSeq Fmt.CmdSeqProofs Fmt.ScenesImage Fmt.ScenesImageProofs Fmt.ScenesImageCfg Fmt.ScenesImageCfgProofs
-  Fmt.SmdTpl Fmt.SmdTplProofs Fmt.SmdWords Fmt.TextFields Fmt.TextFieldsProofs Fmt.SndStacks Fmt.SndStacksProofs Fmt.VmtQuote Fmt.VmtQuoteProofs Fmt.TextLines Fmt.TextLinesProofs Fmt.ChoreoBin Fmt.ChoreoBinProofs Fmt.SceneSummary Fmt.BspDedup Fmt.C20KeyTables Fmt.C20KeyTablesProofs Fmt.SmdNumber Fmt.SmdNumberProofs Fmt.ChoreoQuant KV.KvBase KV.KvLex KV.KvSym KV.KvLexProofs.
+  Fmt.SmdTpl Fmt.SmdTplProofs Fmt.SmdWords Fmt.TextFields Fmt.TextFieldsProofs Fmt.SndStacks Fmt.SndStacksProofs Fmt.VmtQuote Fmt.VmtQuoteProofs Fmt.TextLines Fmt.TextLinesProofs Fmt.ChoreoBin Fmt.ChoreoBinProofs Fmt.SceneSummary Fmt.BspDedup Fmt.C20KeyTables Fmt.C20KeyTablesProofs Fmt.SmdNumber Fmt.SmdNumberProofs Fmt.ChoreoQuant Fmt.C20PropertyProofs KV.KvBase KV.KvLex KV.KvSym KV.KvLexProofs.
 
 (** * Command sequences *)
 Module CS := Fmt.CmdSeq.
@@ -538,3 +538,32 @@ Theorem c20_choreo_quantisation_factor_mismatch_refuted :
   CQ.all_stable (CQ.mkQ CQ.QRound 255%float true 255 256%float) = false /\
   CQ.quant (CQ.mkQ CQ.QRound 255%float true 255 256%float) (CQ.dequant (CQ.mkQ CQ.QRound 255%float true 255 256%float) 200) = Some 199%Z.
 Proof. exact CQ.quant_factor_mismatch_refuted. Qed.
+
+(** * The property, composed (round 4).  One statement with its hypotheses visible: the objects regenerated from today's source --
+    the cmdseq configuration, the scenes.image configuration, the soundscript stack census, the key census of the writers, the
+    quantisation sites -- enter only through the named booleans the check discharges on every run ([cmdseq_cfg_ok], [image_cfg_ok],
+    [sndscript_stack_census_ok], the per-table obligations, the quantisation obligation).  Partial: the formats / layers that have a
+    model (see docs/C20.md for what is only searched); VMT, text lines and SMD data lines have their own statements above, over the
+    tokenizer model. *)
+Theorem c20_property_partial :
+  forall (c : CS.cfg) (ic : SC.icfg) (A : Type) (g : list SK.gterm) (ws : list SK.wblock) (ts : list DD.dedup_table) (qs : list CQ.qsite),
+  CS.cfg_okb c = true -> SC.icfg_okb ic = true -> SK.guard_okb g = true -> SK.blocks_okb ws = true ->
+  KT.tables_ok ts = true -> forallb CQ.all_stable qs = true ->
+  (* command sequences: written, read back equal, second generation identical *)
+  (forall v, CS.repr_okb c v = true -> exists b, CS.write c v = Some b /\ CS.parse c b = Some v /\
+                                                 forall v', CS.parse c b = Some v' -> CS.write c v' = Some b) /\
+  (* scenes.image: read back equal (sorted by checksum), for both input forms and any dict keys *)
+  (forall is_dict version pool kes, SC.image_ok_w version pool (map snd kes) ->
+     exists b, SC.img_save_g ic is_dict version pool kes = Some b /\
+       SI.img_parse b = Some (version, pool, map (SI.to_pentry version pool) (SI.sort_by_crc (map snd kes)))) /\
+  (* binary scenes: every layout decodes what it encoded *)
+  (forall l env v b r, CB.enc l env v = Some b -> CB.dec l env (b ++ r) = Some (v, r)) /\
+  (* ... and every stored quantised field is stable *)
+  (forall s, In s qs -> forall k, (0 <= k <= CQ.q_max s)%Z -> CQ.quant s (CQ.dequant s k) = Some k) /\
+  (* soundscript operator stacks: the value comes back *)
+  (forall x : SK.sound A, SK.same_value (SK.parse (fst (SK.export g ws x))) x) /\
+  (* SMD: the nodes section reads back as the bones, through a table whose key keeps apart what the reader keeps apart *)
+  (forall bs ls, NoDup (map SN.bkey bs) -> SN.number bs = Some ls ->
+     exists perm, Permutation perm bs /\ SN.read_nodes [] ls = Some (map SN.bone_rec perm)) /\
+  (forall name adm fields k, In (name, adm, fields, k) ts -> DD.key_determines adm fields k = true).
+Proof. exact Fmt.C20PropertyProofs.property_partial. Qed.
